@@ -483,4 +483,48 @@ def Stream.sequenceCompletedV {σ : Type} (V : MsgValidator σ) (F : Faults) (c 
   let r := s.sequenceCompleted F c o h
   (r.1, V.init, if r.2 then .ok else .err)
 
+/-! ### crash states (what C11's crash-prefix theorems and the sweep's self-check are stated with) -/
+
+/-- the single-fault schedule "operation number `k` takes `j` bytes and fails" (a seek just fails) -/
+def single (k j : Nat) : Faults := fun i => if i = k then some j else none
+
+/-- the operation as the destination logs it when it fails after `j` bytes -/
+def DOp.fail (j : Nat) : DOp → DOp
+  | .write p _ _ => .write p (min j p.length) false
+  | .writeAt p off _ _ => .writeAt p off (min j p.length) false
+  | .seek delta _ => .seek delta false
+
+/-- effect of one logged operation on a destination: the bytes it took are stored, the position moves, the operation is logged -/
+def Dest.apply (d : Dest) : DOp → Dest
+  | .write p t ok => { content := overwrite d.content d.pos (p.take t), pos := d.pos + t, log := .write p t ok :: d.log }
+  | .writeAt p off t ok => { d with content := overwrite d.content off (p.take t), log := .writeAt p off t ok :: d.log }
+  | .seek delta ok =>
+    if ok then { d with pos := ((d.pos : Int) + delta).toNat, log := .seek delta ok :: d.log }
+    else { d with log := .seek delta ok :: d.log }
+
+/-- replay of an operation sequence (oldest first) on a destination -/
+def Dest.run (d : Dest) (ops : List DOp) : Dest := ops.foldl Dest.apply d
+
+/-- the crash state (k, j) of an operation sequence (oldest first): the first `k` operations in full, operation `k`
+cut to `j` bytes and failed, nothing afterwards; the sequence itself when it has no operation `k` -/
+def crashOps (k j : Nat) (ops : List DOp) : List DOp :=
+  match ops[k]? with
+  | some op => ops.take k ++ [op.fail j]
+  | none => ops
+
+/-! ### a destination opened with O_APPEND (the first caveat of `encoder.New`: "the behavior of the Encoder is not specified") -/
+
+/-- effect of one logged operation on a file opened with `O_APPEND`: every `Write` goes to the END of the file wherever
+the position is (and leaves the position there); a seek moves the position only. (`(*os.File).WriteAt` refuses such a
+file; an `*os.File` is an `io.WriteSeeker` for the encoder, which never calls its `WriteAt`.) -/
+def Dest.applyAppend (d : Dest) : DOp → Dest
+  | .write p t ok => { content := d.content ++ p.take t, pos := d.content.length + t, log := .write p t ok :: d.log }
+  | .writeAt p off t ok => { d with log := .writeAt p off t ok :: d.log }
+  | .seek delta ok =>
+    if ok then { d with pos := ((d.pos : Int) + delta).toNat, log := .seek delta ok :: d.log }
+    else { d with log := .seek delta ok :: d.log }
+
+/-- replay of an operation sequence (oldest first) on an `O_APPEND` file -/
+def Dest.runAppend (d : Dest) (ops : List DOp) : Dest := ops.foldl Dest.applyAppend d
+
 end Fit.Writer
